@@ -37,11 +37,35 @@ P(proto, name, class, side) == [proto |-> proto, name |-> name, class |-> class,
    int32 / uint32 / int64 / uint64).  Where the verdict of the parser depends on limits configured elsewhere the class
    is "any": what is demanded is containment (process alive, other connections served, nothing left behind, no memory
    in the order of the announced length). *)
+(* the same field several times in one message with different values (RFC 7540 6.5: SETTINGS values are processed in
+   order, every occurrence must be in range): an absurd occurrence anywhere is refused like a single absurd value; legal
+   repetitions are served.  "up": the upstream's first frame is such a SETTINGS frame and the proxy then has to forward
+   a request body. *)
+RepeatedFieldPoisons ==
+  { P("http2", "settings-max-frame-size-16384-then-zero", "undecodable", "down"),
+    P("http2", "settings-max-frame-size-zero-then-16384", "undecodable", "down"),
+    P("http2", "settings-max-frame-size-16384-16384-zero", "undecodable", "down"),
+    P("http2", "settings-initial-window-65535-then-2p31", "undecodable", "down"),
+    P("http2", "settings-enable-push-0-then-2", "undecodable", "down"),
+    P("http2", "settings-max-frame-size-twice-legal", "any", "down"),
+    P("http2", "headers-duplicate-content-length", "any", "down"),
+    P("http2", "upstream-settings-max-frame-size-zero", "undecodable", "up"),
+    P("http2", "upstream-settings-max-frame-size-16384-then-zero", "undecodable", "up"),
+    P("bolt", "repeated-header-key", "any", "down"),
+    \* errors the framer reports for ONE stream while it decodes (RFC 7540 8.1.2, 6.2, 6.9): answered (RST_STREAM / GOAWAY) or closed
+    P("http2", "headers-duplicate-path", "undecodable", "down"),
+    P("http2", "headers-uppercase-field-name", "undecodable", "down"),
+    P("http2", "headers-pseudo-after-regular", "undecodable", "down"),
+    P("http2", "headers-pad-exceeds-payload", "undecodable", "down"),
+    P("http2", "window-update-zero-on-stream", "undecodable", "down"),
+    P("http2", "upstream-headers-duplicate-status", "undecodable", "up") }
+
 IntegerBoundaryPoisons ==
   { P("http1", "content-length-" \o v, "any", "down") : v \in {"2p31m1", "2p31", "2p32m1", "2p32", "2p63m1", "2p63", "2p64m1", "2p64"} }
   \cup { P("http1", "chunk-size-" \o v, "any", "down") :
             v \in {"7fffffff", "80000000", "ffffffff", "100000000", "7fffffffffffffff", "8000000000000000", "ffffffffffffffff", "10000000000000000"} }
   \cup { P("http1", "upstream-content-length-2p31m1", "any", "up"), P("http1", "upstream-chunk-size-7fffffff", "any", "up") }
+  \cup RepeatedFieldPoisons
   \cup { P("bolt", "body-length-2p31m1", "incomplete", "down"), P("bolt", "body-length-2p31", "incomplete", "down"),
          P("dubbothrift", "outer-length-wraps", "incomplete", "down"),
          P("http2", "headers-hpack-index-2p63", "undecodable", "down"),
